@@ -648,7 +648,6 @@ func RunC18(seed uint64, n int) *det.CaseResult {
 	return res
 }
 
-
 func (c *c18) compMinMax(isMin bool) {
 	l, lp, lnil := c.gen()
 	r, rp, rnil := c.gen()
